@@ -174,9 +174,6 @@ func registerMsgp() {
 	}
 	ext[M+"AppendTime"] = func(fr *frame, args []value) value {
 		t := args[1].(structure)
-		if containsSym(t) {
-			panic(unsupported("msgp.AppendTime of a symbolic time"))
-		}
 		// keep wall/ext verbatim in an extension-like cell triple
 		b, _ := args[0].([]value)
 		return append(b, timeCell{t})
